@@ -315,7 +315,11 @@ def run(ctx) -> None:
     cinit = an.ComponentContext.methods["__init__"]
     unwrap = [t for t in walk_own(cinit.node) if isinstance(t, (ast.If, ast.While)) and "isinstance" in ast.unparse(t.test) and an.ComponentContext.name in ast.unparse(t.test)]
     unwraps_to_wrapped = any(isinstance(x, ast.Assign) and isinstance(x.value, ast.Attribute) and x.value.attr == an.wrapped_attr for t in unwrap for b in t.body for x in ast.walk(b)) or any(isinstance(t, ast.While) and "isinstance" in ast.unparse(t.test) and an.ComponentContext.name in ast.unparse(t.test) and any(isinstance(x, ast.Assign) and isinstance(x.value, ast.Attribute) and x.value.attr == an.wrapped_attr for b in t.body for x in ast.walk(b)) for t in walk_own(cinit.node))
-    rep.check("C02.R4", bool(unwrap) and unwraps_to_wrapped, cinit, unwrap[0] if unwrap else cinit.node, "component contexts are unwrapped when choosing the context to delegate to", "a ComponentContext may delegate to another ComponentContext (which exits sooner)")
+    cicfg = a.cfg(cinit)
+    wstores = [n for n in cicfg.live_nodes() if n.kind == "stmt" and isinstance(n.ast, (ast.Assign, ast.AnnAssign)) and any(self_attr(t) == an.wrapped_attr for t in (n.ast.targets if isinstance(n.ast, ast.Assign) else [n.ast.target]))]
+    utests = [t for t in cicfg.live_nodes() if t.kind == "test" and any(t.ast is u.test for u in unwrap)]
+    unwrap_first = bool(wstores) and bool(utests) and all(cicfg.dominates(utests[0].id, w_.id) for w_ in wstores)
+    rep.check("C02.R4", bool(unwrap) and unwraps_to_wrapped and unwrap_first, cinit, unwrap[0] if unwrap else cinit.node, "component contexts are unwrapped when choosing the context to delegate to", "a ComponentContext may delegate to another ComponentContext (which exits sooner)")
     # every resource-related Context method is overridden by ComponentContext (no table of its own is used)
     for name in ("add_resource", "add_resource_factory", "get_resource", "get_resource_nowait", "get_resources", "add_teardown_callback", "start_service_task", "start_background_task_factory"):
         rep.check("C02.R4", name in an.ComponentContext.methods, an.ComponentContext.methods.get(name), None, f"ComponentContext overrides {name}", f"ComponentContext does not override {name}: the call lands on the component context's own (empty, short-lived) tables")
